@@ -39,6 +39,9 @@ impl SliceItem {
     pub(crate) fn index_range(&self, dim_size: usize) -> IndexRange {
         let range = match *self {
             SliceItem::Range(range) => range,
+            // The range for index -1 extends to the end of the dimension. An
+            // end of `idx + 1 == 0` would refer to the start of it instead.
+            SliceItem::Index(-1) => SliceRange::new(-1, None, 1),
             SliceItem::Index(idx) => SliceRange::new(idx, Some(idx + 1), 1),
         };
         range.index_range(dim_size)
